@@ -315,6 +315,9 @@ def make_chain(rng):
             if isinstance(d, M.Protocol):
                 d.steps.append(("evolast", M.Named("EvoTail"), False))
         tails = ("EvoTail",)
+    # ... and one protocol that none of the above touches: it stays as it is through (nearly) all versions, so that the
+    # version tables of the generated code have entries that merely repeat the current schema
+    base.files[sorted(base.files)[0]].append(M.Protocol("EvoStill", [("count", M.Prim("int32"), False), ("names", M.Prim("string"), True), ("gains", M.Vec(M.Prim("float32")), False)]))
     k = rng.fork("chainshape")
     newest = E.with_versions(base, rng.fork("ver"), k.choice([1, 2, 2, 3]), partial=True, must_edit=must,
                              order=k.choice(["oldest_first", "oldest_first", "newest_first", "shuffled"]), p_new_protocol=k.choice([0.0, 0.4]),
